@@ -14,6 +14,9 @@ Binding:
       opacity, transform, outline), Flow.tla, TableGrid.tla, Stacking.tla and the link documents are drawn at zoom 1, 0.5
       and 3 on the recording backend and TLC validates every recorded call sequence with BackendTrace.tla (Proto).
 Decor.tla also has three degenerate radial gradients and a text drawn with two fonts (fallback inside one text box).
+Metadata (spec/Metadata.tla): collecting <title> / <meta> as a transition system over the head elements (first non-empty
+title / description / generator, authors in order, keywords split on commas, stripped of ASCII white space only and kept
+once); every head of <= 3 elements is rendered and the Set* calls must carry the specification's values.
 """
 import json
 import os
@@ -68,6 +71,15 @@ def proto(ctx, scn, cnt, kind, name, stride=1):
     return {"documents": c.get("documents", 0), "backend_calls": c.get("calls", 0), "call_sequences_validated_by_tlc": len(recs), "rejected": rejected}
 
 
+META_CFG = """CONSTANTS
+  MaxElems = %d
+SPECIFICATION Spec
+INVARIANTS KeywordsClean FirstWins AuthorsInOrder Emit
+PROPERTIES Terminates
+CHECK_DEADLOCK FALSE
+"""
+
+
 def run(ctx):
     thorough = ctx.tier == "thorough"
     cov = {}
@@ -102,11 +114,29 @@ def run(ctx):
     res = ctx.tlc("Stacking", None, workers=8, cfg_text=c16.CFG % (5, "full", "TRUE", "INIT InitBuild\nNEXT Next", ""), simulate="num=%d" % (60 if not thorough else 1000), depth=100, timeout=3000)
     scn, cnt, first = ctx.scenario_lines(res)
     cov["protocol-stacking-arrangements"] = proto(ctx, scn, cnt, "c16", "stacking")
+    # metadata (spec/Metadata.tla)
+    res = ctx.tlc("Metadata", None, workers=8, cfg_text=META_CFG % (3 if not thorough else 4), timeout=3000)
+    scn, cnt, first = ctx.scenario_lines(res)
+    lines = sorted(set(open(scn)))
+    if not lines:
+        raise MachineryError("no metadata scenario generated")
+    open(scn, "w").write("".join(lines))
+    ctx.samples.extend(first[-1:])
+    ver = os.path.join(ctx.scratch, "mver.ndjson")
+    ctx.vdrive(["c14meta", "-in", scn, "-out", ver])
+    ctx.key_filter = "C14:"
+    summ = ctx.consume_verdicts(ver)
+    c = summ.get("counts", {})
+    if c.get("scenarios", 0) != len(lines):
+        raise MachineryError("harness processed %d of %d metadata documents" % (c.get("scenarios", 0), len(lines)))
+    cov["metadata"] = {"documents": c.get("documents", 0)}
+    os.remove(ver)
     ctx.traces = sum(v.get("call_sequences_validated_by_tlc", 0) for v in cov.values())
     return ctx.finish("model_checking", {
         "exhaustive": True, "evaluations": sum(v.get("documents", 0) for v in cov.values()), "families": cov,
         "rule": "every document of <= 4 items over {element with id a/b, link to #a/#b, heading of bookmark-level 1..3} x page break before the item (quick: every 4th); "
-                "every decorated box of Decor.tla (quick: every 6th); seeded samples of Flow / TableGrid / Stacking documents; zoom 1, 0.5, 3",
+                "every decorated box of Decor.tla (quick: every 6th); seeded samples of Flow / TableGrid / Stacking documents; zoom 1, 0.5, 3; metadata: every head of <= 3 elements over 21 title / meta elements "
+                "(empty values, repeated names, upper-case names, keywords separated and surrounded by TAB LF FF CR SPACE NBSP EM-SPACE)",
     }, assumptions=[
         "the recording backend is the observer: only the calls of backend.Document / Page / Canvas / GraphicState are seen",
         "images and inline SVG are not part of the drawn corpus (C18 covers SVG geometry)",
